@@ -164,6 +164,25 @@ func ruleETypeCheck(p *Program, r *Reporter) {
 			continue
 		}
 		exempt, isExempt := mismatchIsNotError[name]
+		if !isExempt {
+			why := map[string]string{}
+			for k, v := range mismatchIsNotError {
+				if k != "evaluator.evaluator.evaluate" {
+					why[k] = v
+				}
+			}
+			for _, sel := range selectors {
+				// E-SELECTOR-NULL decides that these yield null on a subject of the wrong type
+				if f := producerFunc(p, sel); f != nil {
+					if _, ok := why[p.FuncName(f)]; !ok {
+						why[p.FuncName(f)] = "a selector on a value of the wrong type is null"
+					}
+				}
+			}
+			if via, ok := exemptVia(p, fn, func(n string) bool { _, ok := why[n]; return ok }, 0); ok {
+				exempt, isExempt = "called only on behalf of "+via+": "+why[via], true
+			}
+		}
 		n := 0
 		loops := loopsOf(fn)
 		for _, tt := range typeTestsOf(fn) {
@@ -521,6 +540,7 @@ func ruleENegCount(p *Program, r *Reporter) {
 }
 
 func ruleENullHelpers(p *Program, r *Reporter) {
+	partOfDispatcher := newEvalDom(p).partOfDispatcherFn()
 	for _, fn := range p.ReachFuncs(p.Eval) {
 		if fn.Parent() != nil || fn.Signature.Recv() != nil {
 			continue
@@ -552,7 +572,7 @@ func ruleENullHelpers(p *Program, r *Reporter) {
 		for _, e := range node.In {
 			cn := p.FuncName(e.Caller.Func)
 			callers = append(callers, cn)
-			if e.Caller.Func != p.RoleFunc("evaluator", "evaluator", "evaluate") && e.Caller.Func.Name() != "evaluate" {
+			if !partOfDispatcher(e.Caller.Func) {
 				bad = cn
 			}
 		}
@@ -560,7 +580,7 @@ func ruleENullHelpers(p *Program, r *Reporter) {
 		if bad != "" {
 			r.Bad(fn.Pos(), key, "null-on-mismatch helper "+name+" is called from "+bad+": a built-in function must raise invalid-type for a wrongly typed value, not turn it into null")
 		} else {
-			r.OK(fn.Pos(), key, fmt.Sprintf("called only from the dispatcher (%d sites)", len(callers)))
+			r.OK(fn.Pos(), key, fmt.Sprintf("called only from the dispatcher or from helpers interpreted as part of it (%d sites)", len(callers)))
 		}
 	}
 	_ = strings.Join
